@@ -215,3 +215,25 @@ pub proof fn lemma_tz_full(w: {I}, r: int)
         lemma_wbit_zero(r as {I});
     }
 }
+
+// index arithmetic of a chunk [a, a+l) that stays inside one word, copied from/to [b, b+l)
+pub proof fn lemma_chunk_idx(i: int, a: int, b: int, l: int)
+    requires 0 <= a, 0 <= b, 1 <= l, a <= i < a + l, a % {I.bits} + l <= {I.bits}, b % {I.bits} + l <= {I.bits}
+    ensures
+        i / {I.bits} == a / {I.bits}, i % {I.bits} == a % {I.bits} + (i - a),
+        (b + (i - a)) / {I.bits} == b / {I.bits}, (b + (i - a)) % {I.bits} == b % {I.bits} + (i - a),
+{
+}
+pub proof fn lemma_chunk_idx1(i: int, a: int, l: int)
+    requires 0 <= a, 1 <= l, a % {I.bits} + l <= {I.bits}, 0 <= i
+    ensures
+        (a <= i < a + l) ==> (i / {I.bits} == a / {I.bits} && i % {I.bits} == a % {I.bits} + (i - a)),
+        (i / {I.bits} == a / {I.bits}) ==> ((a <= i < a + l) == (a % {I.bits} <= i % {I.bits} < a % {I.bits} + l)),
+{
+}
+// a chunk of l bits ending just below index x, with l <= (x-1) % WB + 1, stays inside the word holding x-1
+pub proof fn lemma_top_chunk(x: int, l: int)
+    requires x >= 1, 1 <= l <= (x - 1) % {I.bits} + 1
+    ensures x - l >= 0, (x - l) % {I.bits} + l <= {I.bits}, (x - l) / {I.bits} == (x - 1) / {I.bits},
+{
+}
